@@ -23,7 +23,7 @@ pub fn run(ctx: &Ctx) -> Report {
     let budget = ctx.clone();
     let deadline = move || budget.over_budget();
     let max_states = if thorough { 8_000_000 } else { 2_000_000 };
-    let configs: Vec<&str> = if thorough { vec!["bus-1-a", "bus-2-a", "bus-2-ax", "bus-3-r", "bus-3-rx", "bus-4-r"] } else { vec!["bus-1-a", "bus-2-q", "bus-2-qx", "bus-3-r"] };
+    let configs: Vec<&str> = if thorough { vec!["bus-1-a", "bus-2-q", "bus-2-a", "bus-2-ax", "bus-3-r", "bus-3-rx", "bus-4-r"] } else { vec!["bus-1-a", "bus-2-q", "bus-2-qx", "bus-3-r"] };
     for name in configs {
         let sys = BusSys { cfg: bus_config(name).unwrap(), oracle: BusOracle::Isolation };
         let res = bfs(&sys, max_states, &deadline);
@@ -36,6 +36,21 @@ pub fn run(ctx: &Ctx) -> Report {
             rep.sample(s);
         }
     }
+    let mut xs = vec![];
+    if rep.violations.is_empty() {
+        for name in ["bus-1-a", "bus-2-q"] {
+            let sysname = BusSys { cfg: bus_config(name).unwrap(), oracle: BusOracle::Isolation }.name();
+            let sr = crate::xcheck::stateright_unique_states(BusSys { cfg: bus_config(name).unwrap(), oracle: BusOracle::Isolation });
+            let mine = runs.iter().find(|r| r["run"] == json!(sysname)).and_then(|r| r["states"].as_u64());
+            if let Some(mine) = mine {
+                xs.push(json!({"run": sysname, "stateright_unique_states": sr, "own_explorer_states": mine, "equal": sr == mine}));
+                if sr != mine {
+                    rep.machinery_errors.push(format!("E5 cross-check: stateright found {} unique states for {}, the own explorer {}", sr, sysname, mine));
+                }
+            }
+        }
+    }
+    rep.set("stateright_cross_check", Value::Array(xs));
     rep.set("bfs_runs", Value::Array(runs));
     let diverged = !rep.violations.is_empty();
     rep.guard("two-signs-mid-transfer-at-once", tags_all & T_TWO_RECEIVING != 0 || diverged, "a state with two signs receiving was expanded");
